@@ -1,5 +1,7 @@
 import PC.Proofs.SupArms
 import PC.Spec.SupSpec
+import PC.Proofs.SupStatus
+import PC.Props.C08
 /-! C09 — reported state is truthful (supervisor model). -/
 namespace PC.Props.C09
 open PC.Sup
@@ -52,6 +54,36 @@ theorem health_forgotten (s : Sys) (i : IId) (st : Status) (hn : s.nameOf i < s.
     (simp only [setState, setPs_nameOf, emit_nameOf]
      rw [ps_setPs _ _ _ _ (by simpa using hn)]
      simp)
+
+/-! ### The status reported while a command is alive, globally (outside the overlap finding R1) -/
+
+/-- **Completed / Skipped / Error (and Pending, Restarting, Disabled) are never reported for a process
+    while one of its commands is alive**: in every state reachable without overwriting a registration
+    (`PC.Sup.ReachG`: every schedule at the finest granularity, every sequence of exits, probe results,
+    output, timeouts and requests, every map order) a configured process with a live command is
+    reported Running or Terminating. -/
+theorem alive_reported_running_or_terminating (gr : Gran) (o : Bool) (cfgs : List Cfg) {s : Sys}
+    (hr : ReachG (init gr o cfgs) s) (i : IId) (ha : (s.inst i).cmd = .alive) (hn : s.nameOf i < s.pstates.length) :
+    (s.ps (s.nameOf i)).status = .running ∨ (s.ps (s.nameOf i)).status = .terminating := by
+  have := reachG_truth gr o cfgs hr i ha hn
+  unfold aliveStatus at this
+  simpa using this
+
+/-- the same for whole-step executions that pass the executable guard of `PC.Props.C08.runG` -/
+theorem terminal_only_when_not_alive (gr : Gran) (o : Bool) (cfgs : List Cfg) (tr : List Choice) (s : Sys)
+    (e : PC.Props.C08.runG (init gr o cfgs) tr = some s) (i : IId) (hn : s.nameOf i < s.pstates.length)
+    (ht : (s.ps (s.nameOf i)).status = .completed ∨ (s.ps (s.nameOf i)).status = .skipped ∨ (s.ps (s.nameOf i)).status = .error) :
+    (s.inst i).cmd ≠ .alive := by
+  intro ha
+  rcases alive_reported_running_or_terminating gr o cfgs (PC.Props.C08.runG_reach tr ReachG.init e).1 i ha hn with h | h <;>
+    rcases ht with h' | h' | h' <;> rw [h] at h' <;> cases h'
+
+-- non-vacuity: in this guarded execution the command of process 0 is alive and the process is reported Terminating
+-- (it ignores the stop signal), process 1 has completed
+set_option maxRecDepth 8000 in
+example : ((PC.Props.C08.runG (init .coarse false [{ onSignal := none }, {}])
+    [.call 0 .runMain, .run 0, .run 1, .run 2, .exit 1 0, .run 2, .call 1 (.stop 0), .run 3]).map fun s =>
+      ((s.inst 0).cmd, (s.ps 0).status, (s.ps 1).status)) = some (.alive, .terminating, .completed) := by decide
 
 /-! ### The full statements fail: W2 (stale status in `stop:checked`), R1 (state of a re-started process) -/
 
